@@ -183,7 +183,19 @@ def rule_r2(chk, prog):
     # Producer is the mutator list of the pass as get_pass() delivered it,
     # on every definition that reaches the construction
     prods = [c for c in ast.walk(wl) if isinstance(c, ast.Call) and (
-        call_name(c) or '').split('.')[-1] == 'Producer' and c.args]
+        call_name(c) or '').split('.')[-1] == 'Producer' and (
+            c.args or c.keywords)]
+    pinit = m.funcs.get('Producer.__init__')
+    p0 = params_of(pinit)[1] if pinit is not None and len(
+        params_of(pinit)) > 1 else None
+
+    def first_arg(c):
+        if c.args:
+            return c.args[0]
+        for k in c.keywords:
+            if k.arg == p0:
+                return k.value
+        return None
     chk.floor('C02.R2', 'Producer constructions in the sweep loop',
               len(prods), 1)
     passvars = set()
@@ -194,19 +206,28 @@ def rule_r2(chk, prog):
                         st.value) or '').split('.')[-1] == 'get_pass' and \
                 isinstance(st.targets[0].elts[0], ast.Name):
             passvars.add(st.targets[0].elts[0].id)
+        builders = {t_.id for s_ in ast.walk(f) if isinstance(
+            s_, ast.Assign) and isinstance(s_.value, ast.Call) and (
+                call_name(s_.value) or '').split('.')[-1] == 'get_passes'
+            for t_ in s_.targets if isinstance(t_, ast.Name)}
         if isinstance(st, ast.For) and isinstance(
                 st.target, ast.Tuple) and isinstance(
-                    st.target.elts[0], ast.Name) and any(
+                    st.target.elts[0], ast.Name) and (any(
                         isinstance(x, ast.Call) and (call_name(x) or ''
                                                      ).split('.')[-1] in (
                                                          'get_pass',
                                                          'get_passes')
-                        for x in ast.walk(st.iter)):
+                        for x in ast.walk(st.iter)) or any(
+                            isinstance(x, ast.Name) and x.id in builders
+                            for x in ast.walk(st.iter))):
             passvars.add(st.target.elts[0].id)
     from ..cfg import reaching_defs
     RDp = reaching_defs(cfg, params_of(f))
     for c in prods:
-        a0 = c.args[0]
+        a0 = first_arg(c)
+        if a0 is None:
+            raise AnalysisError('C02.R2: cannot find the mutator list '
+                                f'argument of {unparse(c)[:60]}')
         okp = isinstance(a0, ast.Name) and a0.id in passvars
         srcs = []
         if isinstance(a0, ast.Name) and not okp:
